@@ -356,7 +356,20 @@ class SymExec:
                             val = ("refv", ("refv", pse.read(fs, val[1][1])))
                         else:
                             break
-                    return ("refv", val)
+
+                    def own_locals(x, depth=0):
+                        """references to the promoted body's own temporaries inside the value (`Some(&0)`):
+                        the values they hold"""
+                        if not isinstance(x, tuple) or not x or not isinstance(x[0], str) or depth > 6:
+                            return x
+                        if x[0] == "ref" and isinstance(x[1], tuple) and x[1] and x[1][0] == "local":
+                            return ("refv", own_locals(pse.read(fs, x[1]), depth + 1))
+                        if x[0] == "agg":
+                            return x[:4] + (tuple(own_locals(y, depth + 1) for y in x[4]),)
+                        if x[0] == "refv":
+                            return ("refv", own_locals(x[1], depth + 1))
+                        return x
+                    return ("refv", own_locals(val))
                 return r
             return ("unknown", "promoted")
         ty = self.fb.ty(v["ty"]).s if "ty" in v else "?"
